@@ -419,7 +419,7 @@ static void runKrig(const KM& c, Ctx& ctx)
   KM cb = c;
   cb.ball = useBall ? 1 : 0;
   // failure keys: <operation class>:<kind of masking>:<what differs>
-  std::string V = std::string("krig-") + (k.moving ? (useBall ? "ball" : "moving") : "unique") + (k.block ? (k.stationary() ? "-block" : "-blockintr") : "") + ":" + maskKind(c);
+  std::string V = std::string("krig-") + ((k.block && !k.stationary()) ? "blockintr" : (k.moving ? (useBall ? "ball" : "moving") : (k.block ? "block" : "unique"))) + ":" + maskKind(c);
   debugHook();
 
   Snap inBefore = snapOf(w1.dbin.get()), outBefore = snapOf(w1.dbout.get());
